@@ -514,8 +514,10 @@ def enum_extras(agg):
 
 
 def conc_extras(agg):
-    variants = ["mixed", "group-commit", "buffer-stall", "l0-stop", "two-manual-compactions", "backup", "bg-error"]
+    variants = ["mixed", "group-commit", "buffer-stall", "l0-stop", "two-manual-compactions", "backup", "bg-error",
+                "reopen-with-many-l0-files"]
     return dict(
+        opens_with_level0_at_or_above_the_stop_limit=agg.n("reopen_l0_opens_at_or_above_the_stop_limit"),
         schedules=agg.n("schedules"), schedules_by_variant={v: agg.n("schedules_" + v) for v in variants},
         distinct_schedule_signatures=agg.d("schedule_signature"),
         scheduler_steps=agg.n("sched_steps"), context_switches=agg.n("sched_switches"),
@@ -574,10 +576,10 @@ def c09(ctx):
     if ctx.replay:
         return do_replay(ctx)
     if ctx.quick:
-        jobs = conc_jobs(ctx, 16, 100, native=0, variant=[2, 3, 4, 5, 6, 1, 0, 2], first=50000, tag="c09") + \
+        jobs = conc_jobs(ctx, 16, 100, native=0, variant=[2, 3, 4, 5, 6, 1, 0, 8], first=50000, tag="c09") + \
             enum_jobs(ctx, 100, 6, 1, 1, tag="c09") + enum_jobs(ctx, 106, 1, 2, 8, tag="c09")
     else:
-        jobs = conc_jobs(ctx, 64, 800, native=0, variant=[2, 3, 4, 5, 6, 1, 0, 2], first=50000, tag="c09") + \
+        jobs = conc_jobs(ctx, 64, 800, native=0, variant=[2, 3, 4, 5, 6, 1, 0, 8], first=50000, tag="c09") + \
             enum_jobs(ctx, 100, 8, 2, 16, tag="c09")
     agg = Agg().add(runner.run_jobs(jobs))
     return runner.finish(
